@@ -12,6 +12,7 @@ import (
 	"os"
 	"runtime/pprof"
 	"sort"
+	"strconv"
 	"strings"
 	"time"
 
@@ -33,10 +34,18 @@ type bounds struct {
 
 func boundsOf(thorough bool) bounds {
 	if thorough {
-		return bounds{nonces: 4096, searchMax: 1<<25 + 1, depth: 4, mMax: 1, leafM: true, richFrom: 2, plusOne: false, postMDepth: 2,
+		return bounds{nonces: 4096, searchMax: 1 << 23, depth: 4, mMax: 1, leafM: true, richFrom: 2, plusOne: false, postMDepth: 2,
 			heavy: map[string][]uint64{"F0": {512, refBasePlasma}, "F1": {512, refBasePlasma}, "F10": {512, refBasePlasma}, "F5000": {512}}}
 	}
 	return bounds{nonces: 256, searchMax: 1 << 20, depth: 3, mMax: 1, leafM: false, richFrom: 2, plusOne: true, postMDepth: 1, heavy: map[string][]uint64{"F0": {512}, "F10": {512}}}
+}
+
+// (QSR fused and later cancelled, base blocks the account had confirmed while the fusion was active)
+func staleScenarios(thorough bool) [][2]int64 {
+	if thorough {
+		return [][2]int64{{10, 0}, {25, 0}, {25, 1}, {25, 2}, {5000, 0}, {5000, 2}}
+	}
+	return [][2]int64{{10, 0}, {25, 0}, {25, 1}}
 }
 
 const convChunk = 1 << 22
@@ -69,8 +78,19 @@ func run(c *xs.Ctx, r *xs.Result) {
 	subs := powSubjects(b.nonces)
 	if next() {
 		convPoints(r, ds)
-		r.Sample(map[string]interface{}{"part": "pow", "difficulties": len(ds), "first": ds[:4], "last": ds[len(ds)-4:], "nonces_per_difficulty_and_subject": b.nonces,
+		r.Sample(map[string]interface{}{"part": "pow", "difficulties": len(ds), "first": fmt.Sprint(ds[:4]), "last": fmt.Sprint(ds[len(ds)-4:]), "nonces_per_difficulty_and_subject": b.nonces,
 			"subjects": []string{fmt.Sprintf("%v/%v", subs[0].Addr, subs[0].Prev), fmt.Sprintf("%v/%v", subs[1].Addr, subs[1].Prev)}})
+	}
+	// the smallest instance of each 64-bit-range class is decided by every shard first, so that a finding in that class is
+	// reported with the same minimal input whichever shard meets it (not counted as evaluations)
+	for _, d := range []uint64{1 << 63, ^uint64(0)} {
+		s := subs[0]
+		for n := uint64(0); n < 4; n++ {
+			code, ref := codeCheck(s, d, n), refValid(d, s.work[n])
+			if code != ref {
+				powMismatch(r, 0, s, d, n, code, ref)
+			}
+		}
 	}
 	// heavy (searched) difficulties first so that they do not all end up at the tail of one shard
 	order := make([]int, len(ds))
@@ -92,6 +112,11 @@ func run(c *xs.Ctx, r *xs.Result) {
 	// ---- part (b)
 	t0 = time.Now()
 	runAcct(c, r, b, next)
+	for _, sc := range staleScenarios(c.Thorough()) {
+		if next() && !c.Expired() {
+			runStale(c, r, sc[0], int(sc[1]))
+		}
+	}
 	r.Count("ms_acct", time.Since(t0).Milliseconds())
 	t0 = time.Now()
 	defer func() { r.Count("ms_conv", time.Since(t0).Milliseconds()) }()
@@ -180,32 +205,35 @@ func replay(c *xs.Ctx, r *xs.Result, b bounds) {
 		if err := json.Unmarshal(c.Replay, &rep); err != nil {
 			panic(err)
 		}
-		subs := powSubjects(int(rep.Nonce) + 1)
-		if rep.Nonce >= 1<<20 {
-			subs = powSubjects(1)
+		d, err1 := strconv.ParseUint(rep.D, 10, 64)
+		nonce, err2 := strconv.ParseUint(rep.Nonce, 10, 64)
+		if err1 != nil || err2 != nil {
+			panic(fmt.Sprint("bad replay numbers: ", err1, err2))
 		}
-		s := subs[rep.Subj]
-		// target + comparison + this one nonce
-		one := []*powSubject{{Addr: s.Addr, Prev: s.Prev, dh: s.dh, work: nil}}
-		powOne(r, one, rep.D, 0)
-		code, ref := codeCheck(s, rep.D, rep.Nonce), refValid(rep.D, refWork(rep.Nonce, &s.dh))
+		s := powSubjects(1)[rep.Subj]
+		// this one nonce first, then target + comparison for the difficulty
+		code, ref := codeCheck(s, d, nonce), refValid(d, refWork(nonce, &s.dh))
 		r.Count("pow_evaluations", 1)
 		if code != ref {
-			powMismatch(r, rep.Subj, s, rep.D, rep.Nonce, code, ref)
+			powMismatch(r, rep.Subj, s, d, nonce, code, ref)
 		}
+		one := []*powSubject{{Addr: s.Addr, Prev: s.Prev, dh: s.dh, work: nil}}
+		powOne(r, one, d, 0)
 	case "conv":
 		ds := powDifficulties()
 		convPoints(r, ds)
 		var rep struct {
-			D uint64 `json:"d"`
+			D string `json:"d"`
 		}
 		json.Unmarshal(c.Replay, &rep)
-		lo := uint64(0)
-		if rep.D > 2 {
-			lo = rep.D - 2
-		}
-		if rep.D < ^uint64(0)-4 {
-			convDifficultyRange(r, lo, rep.D+2)
+		if d, err := strconv.ParseUint(rep.D, 10, 64); err == nil && rep.D != "" {
+			lo := uint64(0)
+			if d > 2 {
+				lo = d - 2
+			}
+			if d < ^uint64(0)-4 {
+				convDifficultyRange(r, lo, d+2)
+			}
 		}
 	case "acct":
 		var rep acctReplay
@@ -223,6 +251,12 @@ func replay(c *xs.Ctx, r *xs.Result, b bounds) {
 			x.evalOne(e, st, rep.Path, *rep.Cand, nn, rep.Heavy)
 		}
 		e.n.Destroy()
+	case "stale":
+		var rep staleReplay
+		if err := json.Unmarshal(c.Replay, &rep); err != nil {
+			panic(err)
+		}
+		runStale(c, r, rep.QSR, rep.Before)
 	default:
 		panic("unknown replay part " + head.Part)
 	}
@@ -260,7 +294,7 @@ func init() {
 		Finish: func(tier string, m *xs.Result, ev *xs.Evidence) {
 			cnt := m.Counters
 			evals := cnt["pow_evaluations"] + cnt["pow_target_evaluations"] + cnt["pow_compare_evaluations"] + cnt["conv_difficulty_evaluations"] +
-				cnt["conv_inverse_evaluations"] + cnt["conv_fused_evaluations"] + cnt["acct_candidates"] + cnt["acct_momentums"]
+				cnt["conv_inverse_evaluations"] + cnt["conv_fused_evaluations"] + cnt["acct_candidates"] + cnt["acct_momentums"] + cnt["stale_candidates"]
 			ev.Coverage["evaluations"] = evals
 			ev.Coverage["distinct_nontrivial"] = len(m.Sets["nontrivial"])
 			delete(ev.Coverage, "distinct_nontrivial_set")
@@ -276,6 +310,12 @@ func init() {
 			}
 			sort.Strings(reasons)
 			ev.Coverage["acct_rejection_reasons"] = reasons
+			odd := []string{}
+			for k := range m.Sets["model_allows_but_rejected"] {
+				odd = append(odd, k)
+			}
+			sort.Strings(odd)
+			ev.Coverage["acct_rejected_although_the_model_allows"] = odd
 			if cnt["replay"] > 0 || m.Incomplete {
 				return
 			}
@@ -287,9 +327,8 @@ func init() {
 				}
 			}
 			for _, n := range []string{"pow_accepted_by_code", "pow_rejected_by_code", "pow_searched_nonces", "pow_just_too_hard_claims", "pow_difficulties_with_both_outcomes",
-				"acct_accepted", "acct_rejected", "acct_accepted_needing_pow", "acct_momentums", "acct_counter_checks",
-				"acct_rejected:not enough plasma on account", "acct_rejected:plasma limit for account-block reached",
-				"acct_rejected:not enough TotalPlasma provided for account-block (PoW + Fused)", "acct_rejected:account-block nonce/difficulty is invalid",
+				"acct_accepted", "acct_rejected", "acct_accepted_needing_pow", "acct_momentums", "acct_counter_checks", "stale_candidates", "stale_histories",
+				"model_allows", "model_refuses:pow-not-proven", "model_refuses:below-base-cost", "model_refuses:fused-exceeds-available", "model_refuses:above-per-block-cap",
 				"acct_accepted:receive", "acct_accepted:send/16384", "acct_accepted:call/pillar.Delegate", "acct_accepted:call/sentinel.Revoke"} {
 				need(n)
 			}
